@@ -585,6 +585,9 @@ pub fn generate(prop: &str, family: &str, seed: u64) -> RunDesc {
         "dir-t6" => crate::dir::t6(prop, seed),
         "dir-t7" => crate::dir::t7(prop, seed),
         "dir-t8" => crate::dir::t8(prop, seed),
+        "dir-t9" => crate::dir::t9(prop, seed),
+        "dir-t10" => crate::dir::t10(prop, seed),
+        "dir-t11" => crate::dir::t11(prop, seed),
         "dir-w" => crate::dir::w(prop, seed),
         "dir-c" => crate::dir::c(prop, seed),
         "client" => crate::fam_client::gen(prop, seed),
